@@ -344,7 +344,7 @@ def run(ctx):
         process(ctx, ex[i:i + 400])
         if len(ctx.violations) > 10:
             return
-    n = ctx.n(2500, 80000) * (2 if widen and ctx.tier != "thorough" else 1)
+    n = ctx.n(2500, 50000) * (2 if widen and ctx.tier != "thorough" else 1)
     done = 0
     while done < n and len(ctx.violations) <= 10:
         cases = [gen_case(ctx.rng) for _ in range(min(400, n - done))]
